@@ -1060,6 +1060,8 @@ def c07_corr(res, exe, driver, tier, seed, tmp):
     ocases = c07_oracle_cases(tier, seed)
     out, traces = run_spec_stream(res, exe, driver, ocases, tmp, "recall-spec", seed)
     stats = eval_c07(res, traces, "recall-spec")
+    import p_sql
+    stats["sqlwalk"] = p_sql.sqlwalk_corr(res, exe, tier, seed, tmp)      # the SQLite back end under the same editor
     res.distribution.update({"oracle": stats, "spec_alignment": alignment(traces), "recall_scripts": len(cases),
                              "spec_scripts": len(ocases)})
     res.rule = ("recall: random emacs/vi scripts with 0-5 history entries (multi-line, duplicates, leading blanks, a 30-column "
@@ -1067,7 +1069,9 @@ def c07_corr(res, exe, driver, tier, seed, tmp):
                 "line breaks typed into the line; compared with the extracted model. recall-spec: a reference walk (fixed "
                 "entry list, position, the line captured when recall starts) predicts what each recall command must show -- "
                 "the stored entry with the cursor at its end, clamping at both ends, the captured line and cursor when coming "
-                "back -- and Up/Down inside a multi-line text must move between lines without recalling.")
+                "back -- and Up/Down inside a multi-line text must move between lines without recalling. sqlwalk: the same "
+                "editor over an SQLiteHistory on a pty (lines of an earlier session and of this one, row-id holes from "
+                "re-entered lines): Up / Down walks against the list of lines held, and the returned line.")
     for c, impl, model, raw in out[:3]:
         res.samples.append({"keys": c.keys, "impl": " ## ".join(impl)[:400]})
 
